@@ -111,7 +111,7 @@ class JobResult:
         }
 
 
-def _worker(jobs, task_q, res_q, wid):
+def _worker(jobs, task_q, res_q, wid, t_cur=None, j_cur=None):
     os.environ['VF_WORKER'] = str(wid)
     n_done = 0
     seen_jobs = {}
@@ -128,6 +128,9 @@ def _worker(jobs, task_q, res_q, wid):
         seen_jobs[ji] = cnt + 1
         opts = dict(job.opts)
         opts['want_sample'] = cnt < 2
+        if t_cur is not None:
+            j_cur[wid] = ji
+            t_cur[wid] = time.time()
         try:
             if opts.get('fork_per_path'):
                 r = _run_forked(job, prefix, opts, cnt)
@@ -139,6 +142,8 @@ def _worker(jobs, task_q, res_q, wid):
                  'new_prefixes': [], 'events': {}, 'obligations': 0, 'discharged': 0, 'concrete_ok': 0,
                  'inconclusive': [], 'violations': [], 'checks': 0, 'solver_s': 0.0, 'unknown_feas': 0,
                  'reached': {}, 'trace_len': 0, 'funcs': [], 'notes': [], 'wall': 0.0}
+        if t_cur is not None:
+            t_cur[wid] = 0.0
         r.pop('notes', None)
         try:
             # mp.Queue pickles in a feeder thread and drops what it cannot pickle without telling anyone (the parent would wait
@@ -196,10 +201,25 @@ def explore(jobs, nworkers=None, budget_s=600, max_paths=None, stop_on_violation
     t_start = time.time()
     started = [None] * len(jobs)
     procs = []
+    # watchdog: when a path started and on which job, per worker (a solver call that ignores its timeout would otherwise hold the
+    # whole run until the budget: the overdue worker is killed, its job is closed as capped and a fresh worker takes its place)
+    t_cur = ctx.Array('d', nworkers)
+    j_cur = ctx.Array('i', nworkers)
     for w in range(nworkers):
-        p = ctx.Process(target=_worker, args=(jobs, task_q, res_q, w), daemon=True)
+        p = ctx.Process(target=_worker, args=(jobs, task_q, res_q, w, t_cur, j_cur), daemon=True)
         p.start()
         procs.append(p)
+
+    def overdue():
+        now = time.time()
+        out = []
+        for w in range(nworkers):
+            t0 = t_cur[w]
+            if t0 > 0:
+                lim = 3 * jobs[j_cur[w]].opts.get('max_path_seconds', 100) + 30
+                if now - t0 > lim:
+                    out.append((w, j_cur[w], now - t0))
+        return out
     inflight = 0
     total_paths = 0
     timed_out = False
@@ -227,7 +247,27 @@ def explore(jobs, nworkers=None, budget_s=600, max_paths=None, stop_on_violation
             try:
                 ji, r = res_q.get(timeout=5)
             except queue.Empty:
-                if any(not p.is_alive() for p in procs):
+                killed = False
+                for (w, kj, age) in overdue():
+                    try:
+                        procs[w].kill()
+                        procs[w].join(timeout=2)
+                    except Exception:
+                        pass
+                    t_cur[w] = 0.0
+                    inflight -= 1
+                    outstanding[kj] -= 1
+                    results[kj].capped = True
+                    results[kj].watchdog = getattr(results[kj], 'watchdog', 0) + 1
+                    stacks[kj].clear()
+                    if outstanding[kj] == 0:
+                        results[kj].complete = False
+                        results[kj].wall = time.time() - started[kj]
+                    p = ctx.Process(target=_worker, args=(jobs, task_q, res_q, w, t_cur, j_cur), daemon=True)
+                    p.start()
+                    procs[w] = p
+                    killed = True
+                if not killed and any(not p.is_alive() for p in procs):
                     raise RuntimeError('worker died')
                 if time.time() - t_start > budget_s:
                     timed_out = True
